@@ -485,7 +485,7 @@ Fixpoint cut_dotdot (t : str) : option (str * str) :=
       else match cut_dotdot rest with Some (a, b) => Some (c :: a, b) | None => None end
   end.
 
-Inductive seqres := NotSeq | SeqMany | SeqList (l : list str).
+Inductive seqres := NotSeq | SeqGuard (* valid syntax, rejected by one of mkseq's overflow guards *) | SeqMany | SeqList (l : list str).
 
 Fixpoint count_up (k : nat) (start step : Z) : list Z :=
   match k with O => [] | S k' => start :: count_up k' (start + step)%Z step end.
@@ -543,9 +543,9 @@ Definition seq_term (text : str) : seqres :=
                     let z4 := (Nat.ltb 2 rl && (r0 =? MINUS) && match rtl with d :: _ => d =? ZERO | [] => false end) in
                     let width := if negb lc && (z1 || z2 || z3 || z4) then Nat.max ll rl else O in
                     let incr1 := if (incr0 =? 0)%Z then 1%Z else incr0 in
-                    if (lv <? rv)%Z && (incr1 =? MIN64)%Z then NotSeq
+                    if (lv <? rv)%Z && (incr1 =? MIN64)%Z then SeqGuard
                     else if ((0 <? lv)%Z && (rv <? MIN64 + 3 + lv)%Z) || ((lv <? 0)%Z && (rv >? MAX64 - 2 + lv)%Z) then
-                      (if (Z.of_nat limit <=? Z.abs (rv - lv) / Z.abs incr1)%Z then SeqMany else NotSeq)
+                      (if (Z.of_nat limit <=? Z.abs (rv - lv) / Z.abs incr1)%Z then SeqMany else SeqGuard)
                     else
                       let step := Z.abs incr1 in
                       let cnt := (Z.abs (rv - lv) / step)%Z in
@@ -589,7 +589,7 @@ Fixpoint bexp (fuel : nat) (t : str) : sres :=
             else match seq_term amble with
                  | SeqList l => Words l
                  | SeqMany => Many
-                 | NotSeq => Words [LB :: amble ++ [RB]]
+                 | NotSeq | SeqGuard => Words [LB :: amble ++ [RB]]
                  end in
           let r := sprod (Words [pre]) tack in
           match post with
@@ -666,6 +666,52 @@ with amb_skips (fuel : nat) (t : str) : bool :=
   end.
 
 Definition skipped_close (w : str) : bool := bexp_skips (spec_fuel w) w.
+
+(* Coq twins of the harness features behind KF-C16-2..4: is there a brace site (the text between the '{' bash
+   selects and its '}') satisfying [here]? *)
+Fixpoint has_unescaped (c : N) (t : str) : bool :=
+  match t with
+  | [] => false
+  | x :: r =>
+      if x =? BS then match r with [] => false | _ :: r' => has_unescaped c r' end
+      else if x =? c then true else has_unescaped c r
+  end.
+
+Fixpoint bexp_any (here : str -> bool) (fuel : nat) (t : str) : bool :=
+  match fuel with
+  | O => false
+  | S f =>
+      match find_brace (S (length t)) true [] t with
+      | None => false
+      | Some (_, amble, post) =>
+          here amble
+          || (if flat_comma amble then amb_any here f amble else false)
+          || match post with [] => false | _ => bexp_any here f post end
+      end
+  end
+with amb_any (here : str -> bool) (fuel : nat) (t : str) : bool :=
+  match fuel with
+  | O => false
+  | S f =>
+      match gobble COMMA 0 1 false t with
+      | None => bexp_any here f t
+      | Some (piece, rest) => bexp_any here f piece || amb_any here f rest
+      end
+  end.
+
+(* KF-C16-2: a list brace whose commas are all nested (no level-0 comma) *)
+Definition nested_comma_only (w : str) : bool :=
+  bexp_any (fun a => flat_comma a && match gobble COMMA 0 1 false a with None => true | Some _ => false end) (spec_fuel w) w.
+(* KF-C16-3: a syntactically valid sequence rejected by mkseq's overflow guards *)
+Definition seq_guard (w : str) : bool :=
+  bexp_any (fun a => negb (flat_comma a) && match seq_term a with SeqGuard => true | _ => false end) (spec_fuel w) w.
+(* KF-C16-4: a comma-less brace that is not a sequence and contains a '{' *)
+Definition failed_seq_nested (w : str) : bool :=
+  bexp_any (fun a => negb (flat_comma a) && match seq_term a with NotSeq | SeqGuard => has_unescaped LB a | _ => false end)
+           (spec_fuel w) w.
+(* the union of the listed classes *)
+Definition known_class (w : str) : bool :=
+  skipped_close w || nested_comma_only w || seq_guard w || failed_seq_nested w.
 
 (* comparison of the implementation's answer with the Spec's *)
 Definition to_sres (r : res (list str)) : sres :=
